@@ -25,7 +25,9 @@ from sim.core import EventLog, Stats, Violation, result_ok, result_violation, st
 PROP = "C25"
 N_POOL = 8
 
-SQLS = ["SELECT * FROM d", "SELECT * FROM d ", "select * from d", "SELECT x FROM d"]
+_LONG = "SELECT " + ", ".join(f"c{i}" for i in range(120)) + " FROM d WHERE x > "
+SQLS = ["SELECT * FROM d", "SELECT * FROM d ", "select * from d", "SELECT x FROM d", "SELECT * FROM d\n", "SELECT * FROM d -- c",
+        _LONG + "1", _LONG + "2"]
 MODELS = ["sqlite_a", "sqlite_b", "postgres"]  # sqlite_a and sqlite_b are two instances of the same dialect
 NAMES = ["d", "e", "d2"]
 
@@ -46,7 +48,7 @@ BASES = [
 ]
 
 DIFFER_VARIANTS = ["value", "rename", "droprow", "swaprows", "swapcols", "addcol", "dropcol", "addrow",
-                   "tiny", "case", "space", "swapcolvalues", "lastrow", "lastcol"]
+                   "tiny", "case", "space", "swapcolvalues", "lastrow", "lastcol", "nfd", "longtail", "bigint"]
 GREY_VARIANTS = ["dtype", "index", "negzero", "boolint", "object"]
 
 
@@ -82,6 +84,20 @@ def vary(spec, kind: str, r) -> Dict[str, Any]:
             c = r.choice(st)
             i = r.randrange(n)
             c["values"][i] = c["values"][i].upper() if kind == "case" else c["values"][i] + " "
+    elif kind in ("nfd", "longtail") and n > 0:
+        st = [c for c in cols if c["dtype"] in (None, "object") and c["values"]]
+        if st:
+            c = r.choice(st)
+            i = r.randrange(n)
+            # same glyph, other code points (precomposed vs combining accent) / same first 400 characters, other tail
+            for c2 in (c,):
+                base_v = c2["values"][i]
+                c2["values"][i] = ("\u00e9" + base_v) if kind == "nfd" else (base_v + "y" * 400 + "1")
+    elif kind == "bigint" and n > 0:
+        ic = [c for c in cols if c["dtype"] == "int64"]
+        if ic:
+            c = r.choice(ic)
+            c["values"][r.randrange(n)] = 2 ** 53 + 1
     elif kind == "swapcolvalues":
         for dt in ("int64", "float64", None):
             same = [c for c in cols if c["dtype"] == dt]
